@@ -1,6 +1,8 @@
 """C10 — metadata travels with exactly the data it describes."""
-from harness import local
-from harness.elements import FUNCS
+from hypothesis import strategies as st
+
+from harness import local, specs
+from harness.elements import FUNCS, canon
 from harness.runner import Part, Result
 from props import mdcommon
 
@@ -113,4 +115,74 @@ def strategy(tier="quick"):
                             modes=("sync", "sync", "fut", "coro"))
 
 
-PARTS = [Part("schedules", strategy, execute, quick=1600, thorough=8000)]
+@st.composite
+def feedback_case(draw, tier="quick"):
+    spec = draw(specs.pipeline_spec(kinds=specs.SYNC_KINDS, max_nodes=8,
+                                    force_feedback=draw(st.integers(0, 3)) != 0))
+    ents = specs.entry_ids(spec)
+    cols = specs.collect_ids(spec)
+    ev = st.tuples(st.just("e"), st.integers(0, len(ents) - 1), st.integers(0, 5))
+    if cols:
+        ev = st.one_of(ev, ev, ev, st.tuples(st.just("f"), st.sampled_from(cols)))
+    case = {"spec": spec, "events": [list(e) for e in draw(st.lists(ev, min_size=2, max_size=25))]}
+    case["mode"] = "sync" if not specs.needs_loop(case["spec"]) else "async"
+    case["md"] = draw(st.lists(st.sampled_from([1, 1, 2, 0]), min_size=1, max_size=5))
+    return case
+
+
+def execute_feedback(case):
+    """synchronous pipelines (fan-out, fan-in, feedback edges: re-entrant emission) with
+    metadata: the metadata seen at every node must equal the reference model's, by identity"""
+    from harness.elements import E, Log
+    from harness.model import ModelGraph
+    from harness.vloop import install
+    spec = case["spec"]
+    ents = specs.entry_ids(spec)
+    mds = {}
+    for idx, e in enumerate(case["events"]):
+        if e[0] == "e":
+            plan = case["md"][idx % len(case["md"])]
+            mds[idx] = None if plan == 0 else ([{"id": idx}] if plan == 1 else
+                                               [{"id": idx}, {"tag": idx}])
+    log = Log()
+
+    def go(loop):
+        b = specs.build(spec, log, asynchronous=loop is not None)
+        for idx, e in enumerate(case["events"]):
+            if e[0] == "e":
+                b.nodes[ents[e[1]]].emit(E(e[2], {idx}), metadata=mds[idx])
+            else:
+                b.nodes[e[1]].flush()
+            if loop is not None:
+                loop.drain()
+        return b
+    if case["mode"] == "async":
+        with install() as loop:
+            b = go(loop)
+    else:
+        b = go(None)
+    g = ModelGraph(spec)
+    for idx, e in enumerate(case["events"]):
+        if e[0] == "e":
+            g.push(ents[e[1]], E(e[2], {idx}), mds[idx])
+        else:
+            g.flush(e[1])
+    real = [(ev[1], canon(ev[2]), [id(m) for m in (ev[3] or [])]) for ev in log.events
+            if ev[0] == "rec"]
+    model = [(i, canon(x), [id(m) for m in (md or [])]) for i, x, md in g.log
+             if spec["nodes"][i]["k"] != "sink"]
+    v = []
+    if [r[:2] for r in real] == [m[:2] for m in model] and real != model:
+        k = next(j for j in range(len(real)) if real[j] != model[j])
+        node = real[k][0]
+        v.append(("%s:%s:metadata-differs%s" % (ID, spec["nodes"][node]["k"],
+                                                  "-under-feedback" if spec.get("fb") else ""),
+                  "node %d %s emission #%d: %d metadata entries seen, %d expected" % (
+                      node, spec["nodes"][node]["p"], k, len(real[k][2]), len(model[k][2]))))
+    multi = any(nd["k"] in MULTI for nd in spec["nodes"])
+    return Result(v, nontrivial=bool(spec.get("fb")) or multi,
+                  classes=["sync-model"] + (["feedback-edge"] if spec.get("fb") else []))
+
+
+PARTS = [Part("schedules", strategy, execute, quick=1600, thorough=8000),
+         Part("sync-with-feedback", feedback_case, execute_feedback, quick=800, thorough=6000)]
